@@ -64,6 +64,20 @@ Wave-8 additions (docs/STRENGTHEN8.md):
   many_orders / many_pairs -- mode-count thresholds (>= 129 modes in one request), same oracle, through run_one / run_two.
   Worst honest err/tol on HEAD, seeds 0..3: order_forms 0, pair_forms 0.0022, par_forms 0, large_coords 0.0021, many_orders 0,
   many_pairs 0.0018 (same TOL_K).  These alphabet units run BEFORE the subset-exhaustive units (see plan()).
+
+Wave-10 additions:
+  coord_domain / coord_domain2 -- the coordinate RANGE as an alphabet ("whatever ... the coordinate arrays"): every other unit draws its
+      coordinates from the nominal range of the family (x in [-1,1], r in [0,1], theta in [0,2pi], ...).  Enumerated here: ranges wider than the
+      nominal one, wholly outside it on either side, a signed radial coordinate (a cut along a diameter: r = linspace(-1, 1), as the
+      library's own Qbfs / Qcon tests use; u^|m| != (u^2)^(|m|/2) there), r > 1, negative and multi-turn angles, x / y of one sign, of
+      magnitude 1e3 and 1e-3.  All of them are in the domain: HEAD's sequences agree with the scalar functions on every one (measured).
+      Signature cells ``r=signed``, ``r=neg``, ``t=signed``, ``x=beyond`` ... appended to the usual mode / order cell.
+  sparse_orders / sparse_pairs -- requests that are sparse AND reach high orders: every subset of size 2..3 of a pool holding low orders,
+      the neighbours of 8 and 16 and high orders (one-index: ascending; two-index: in every order, so also unsorted / descending), e.g.
+      [(4,0),(16,0)] -- per |m| a few radial orders of which one is >= 8.  The subset units stop at order 6 / 9, hi_orders and many_* are
+      dense or single; a per-|m| table keyed or sized by the orders actually requested goes wrong only here.
+  Worst honest err/tol on HEAD, seeds 0..3: coord_domain 0.0023, coord_domain2 0.059 (zernike_nm_seq, theta in [-4pi,4pi], float32),
+  sparse_orders 0, sparse_pairs 0.0020.
 """
 import itertools
 
@@ -167,6 +181,10 @@ ASSUMPTIONS = [
     'np.int64 / int8 / uint8 / uint64 and 0-d arrays are an alphabet (unit par_forms); jacobi / jacobi_seq raise TypeError for 0-d array parameters (lru_cache key)',
     'the coordinate-size alphabet (unit large_coords) and the mode-count alphabet (unit many_orders) are finite lists of sizes, not closed over the data dimension',
     'the threshold-order, dtype/precision and mixed-dtype/open-grid units are alphabets (finite lists), not closed over subsets of orders',
+    'coordinate values: the subset-exhaustive units draw the coordinates from the nominal range of the family (one seeded representative per shape, the 1-D '
+    'point set also holds both end points and the middle); ranges outside it (wider, one-sided, signed radius, r > 1, negative / multi-turn angles, |x| ~ 1e3, 1e-3) '
+    'are a finite alphabet crossed with a fixed list of requests (units coord_domain, coord_domain2), not closed over the reals',
+    'sparse high-order requests (units sparse_orders, sparse_pairs) are every 2- and 3-subset of a fixed pool, not every subset of [0..N] for a high N',
     'integer (int64) coordinates are enumerated for every family whose scalar function accepts them: all one-index families, xy and Q2d; '
     'zernike_nm / zernike_nm_der raise on integer r (in-place float update of an integer array), so the Zernike sequences have no integer oracle',
     'open grids (x or r of shape (1,N), y or t of shape (M,1)) are enumerated for xy_seq and Q2d_seq; zernike_nm raises on them for m != 0 '
@@ -357,6 +375,9 @@ def run_one(case, seed, R):
     dtypes = case.get('dtypes', ['float64', 'float32'])
     prec = case.get('prec', 64)
     tail = ':prec32' if prec == 32 else ''
+    if 'dom' in case:                   # coordinate-range alphabet (unit coord_domain): the same relation outside the nominal range
+        lo, hi = case['dom']
+        tail += ':' + dom_label('x', lo, hi, ONE[name][1])
     ref_ok = {}
     ref_scale = None
     config.precision = prec
@@ -428,19 +449,33 @@ def two_configs(case, name, k, grid_only):
     return [(sh, sh, dt, dt) for sh in shapes_for(k) if not (grid_only and len(sh) != 2) for dt in ('float64', 'float32')]
 
 
-def two_coords(name, grid_only, sa, sb, da, db, seed):
+def dom_label(what, lo, hi, nom):
+    """Signature cell of a coordinate range [lo, hi] relative to the nominal range nom: its sign class (signed / neg / pos) when that differs
+    from the nominal one's, else 'beyond' (same signs, reaches outside the nominal range) or 'inside'."""
+    def cls(a, b):
+        return 'signed' if a < 0 < b else ('neg' if b <= 0 else 'pos')
+    c = cls(lo, hi)
+    if c == cls(*nom):
+        c = 'beyond' if (lo < nom[0] or hi > nom[1]) else 'inside'
+    return f'{what}={c}'
+
+
+def two_coords(name, grid_only, sa, sb, da, db, seed, dom=None):
+    """dom: None (nominal: x, y in [-2, 2]; r in [0, 1], theta in [0, 2 pi]) or [lo_a, hi_a, lo_b, hi_b]."""
     if name == 'xy_seq':
+        xl, xh, yl, yh = dom if dom is not None else (-2, 2, -2, 2)
         if sa == sb and grid_only:
-            xv = coords((sa[1],), seed, 21, -2, 2, da)
-            yv = coords((sa[0],), seed, 22, -2, 2, db)
+            xv = coords((sa[1],), seed, 21, xl, xh, da)
+            yv = coords((sa[0],), seed, 22, yl, yh, db)
             return tuple(np.ascontiguousarray(v) for v in np.meshgrid(xv, yv))
         if sa != sb:          # open grid: x is a row (1, N), y a column (M, 1) -- np.meshgrid(..., sparse=True)
-            xv = coords((int(np.prod(sa)),), seed, 21, -2, 2, da)
-            yv = coords((int(np.prod(sb)),), seed, 22, -2, 2, db)
+            xv = coords((int(np.prod(sa)),), seed, 21, xl, xh, da)
+            yv = coords((int(np.prod(sb)),), seed, 22, yl, yh, db)
             return xv.reshape(sa), yv.reshape(sb)
-        return coords(sa, seed, 21, -2, 2, da), coords(sa, seed, 22, -2, 2, db)
-    a = coords((int(np.prod(sa)),) if sa != sb else sa, seed, 23, 0, 1, da).reshape(sa)                 # r
-    b = coords((int(np.prod(sb)),) if sa != sb else sb, seed, 24, 0, 2 * np.pi, db).reshape(sb)         # theta
+        return coords(sa, seed, 21, xl, xh, da), coords(sa, seed, 22, yl, yh, db)
+    rl, rh, tl, th = dom if dom is not None else (0, 1, 0, 2 * np.pi)
+    a = coords((int(np.prod(sa)),) if sa != sb else sa, seed, 23, rl, rh, da).reshape(sa)         # r
+    b = coords((int(np.prod(sb)),) if sa != sb else sb, seed, 24, tl, th, db).reshape(sb)         # theta
     return a, b
 
 
@@ -456,6 +491,13 @@ def run_two(case, seed, R):
     grid_only = name == 'xy_seq' and var is True
     prec = case.get('prec', 64)
     tail = ':prec32' if prec == 32 else ''
+    dom = case.get('dom')               # coordinate-range alphabet (unit coord_domain2)
+    if dom is not None:
+        ca, cb = ('x', 'y') if name == 'xy_seq' else ('r', 't')
+        nominal = (-2, 2, -2, 2) if name == 'xy_seq' else (0, 1, 0, 2 * np.pi)
+        for c_, i in ((ca, 0), (cb, 2)):            # only the ranges that differ from the nominal one enter the signature
+            if (dom[i], dom[i + 1]) != nominal[i:i + 2]:
+                tail += ':' + dom_label(c_, dom[i], dom[i + 1], nominal[i:i + 2])
     ref_ok = {}
     ref_scale = None
     config.precision = prec
@@ -463,7 +505,7 @@ def run_two(case, seed, R):
         for sa, sb, da, db in two_configs(case, name, k, grid_only):
             shape = tuple(np.broadcast_shapes(sa, sb))
             eps = eps_of(da, db, prec=prec)
-            a, b = two_coords(name, grid_only, sa, sb, da, db, seed)
+            a, b = two_coords(name, grid_only, sa, sb, da, db, seed, dom)
             ain, bin_ = a.copy(), b.copy()
             got = R.call(fseq, list(nms), ain, bin_, sig=f'{name}:raises', **kw)
             exc = R.violations.pop()['msg'] if got is FAILED else None   # re-filed below under the cell signature
@@ -578,6 +620,7 @@ def plan(tier, seed):
                        'one case: the set of *_seq callables found in prysm.polynomials and its submodules equals the set of functions enumerated below')]
     # the alphabet units (finite lists, cheap) run before the subset-exhaustive units: most defect classes per CPU second first,
     # so that a wall-clock cap on a loaded machine cuts the tail of the big enumerations rather than whole classes
+    units.extend(wave10(tier))
     units.extend(wave8(tier))
     units.extend(second_wave(tier))
     shapes_txt = '{(5,) with end points, (), (1,), (k,), (3,4), (4,3), (k,4), (4,k), (2,3,2)} (k = number of orders) x {float64, float32}'
@@ -1031,4 +1074,105 @@ def wave8(tier):
         ScopeUnit('many_pairs', many_two, run_two,
                   'mode-count threshold alphabet, two-index families: every valid Zernike (n, m) with n <= 16 (153 pairs), Q2d n <= 9 x |m| <= 6 (130), xy exponents <= 11 (144) '
                   'in one request, ascending and reversed, every keyword variant, on (5,) and (3,4) float64 coordinates', reset=reset_poly_caches, chunk=1),
+    ]
+
+
+# ---------------------------------------------------------------------------------------------
+# wave 10: coordinate ranges outside the nominal one; sparse / gapped / unsorted requests that contain high orders
+
+TWO_PI = 2 * np.pi
+# one-index families: nominal range -> the other ranges [lo, hi] enumerated (the 1-D point set holds lo, hi and the middle)
+DOM_ONE = {
+    (-1, 1): [[-1.5, 1.5], [1, 3], [-3, -1]],
+    (-2, 2): [[-6, 6], [2, 8], [-8, -2]],
+    (0, 4): [[-3, 3], [4, 40], [-4, 0]],
+    (0, 1): [[-1, 1], [0, 1.5], [-1.5, 1.5], [-1, 0]],          # signed radial coordinate (a cut along a diameter), beyond the unit radius
+}
+DOM_NS = [[0, 1, 2, 3, 4, 5, 6], [1, 4], [3], [2, 5, 9]]
+# polar families: r range x theta range, the nominal pair [0,1] x [0,2pi] left out (it is the scope of every other unit)
+DOM_R = [[0, 1], [-1, 1], [0, 1.5], [-1.5, 1.5], [-1, 0]]
+DOM_T = [[0, TWO_PI], [-np.pi, np.pi], [-2 * TWO_PI, 2 * TWO_PI]]
+DOM_XY = [[0, 3, 0, 3], [-3, 0, -3, 0], [0, 3, -3, 0], [-1e3, 1e3, -1e3, 1e3], [-1e-3, 1e-3, -1e-3, 1e-3]]
+
+# sparse requests: pools that hold low orders, orders around 8 / 16 (table sizes, hash slots of small sets) and high orders
+SPARSE_NS = [0, 2, 7, 8, 9, 16, 33, 64]
+SPARSE_NS_T = [1, 3, 15, 17, 32, 100]
+SPARSE_Z = [[4, 0], [6, 0], [16, 0], [18, 0], [3, 1], [19, -1], [17, 1], [2, 2], [18, -2], [20, 2]]
+SPARSE_Z_T = [[2, 0], [36, 0], [5, -3], [21, 3], [23, -3]]
+SPARSE_Q = [[0, 0], [9, 0], [16, 0], [1, 1], [8, 1], [12, -1], [2, 2], [10, -2], [8, 3], [17, -3]]
+SPARSE_Q_T = [[3, 0], [24, 0], [0, -1], [9, 2], [16, 5]]
+SPARSE_XY = [[0, 0], [8, 0], [0, 9], [1, 8], [16, 1], [2, 17], [9, 9], [3, 3], [16, 0], [0, 16]]
+SPARSE_XY_T = [[8, 8], [17, 2], [1, 1], [0, 33], [32, 0]]
+SPARSE_TWO = {'zernike_nm_seq': (SPARSE_Z, SPARSE_Z_T), 'zernike_nm_der_seq': (SPARSE_Z, SPARSE_Z_T),
+              'Q2d_seq': (SPARSE_Q, SPARSE_Q_T), 'xy_seq': (SPARSE_XY, SPARSE_XY_T)}
+
+
+def sparse_subsets(pool, sizes):
+    out = []
+    for k in sizes:
+        out.extend(list(c) for c in itertools.combinations(sorted(pool), k))
+    return out
+
+
+def sparse_lists(pool, sizes):
+    """Every subset of the given sizes in EVERY order (the two-index families take their pairs in any order)."""
+    out = []
+    for k in sizes:
+        for c in itertools.combinations(pool, k):
+            out.extend([list(p) for p in perm] for perm in itertools.permutations(c))
+    return out
+
+
+def wave10(tier):
+    quick = tier == 'quick'
+    flat = [[5], [3, 4]]
+    # (1) coordinate ranges
+    dom1 = [{'f': n, 'par': par, 'ns': ns, 'shapes': flat, 'dtypes': ['float64', 'float32'], 'dom': dom}
+            for dom in sorted({tuple(d) for v in DOM_ONE.values() for d in v}) for ns in DOM_NS for n in ONE for par in ONE[n][2]
+            if list(dom) in DOM_ONE[tuple(ONE[n][1])]]
+    dom1 = [dict(c, dom=list(c['dom'])) for c in dom1]
+    dom2 = []
+    for name, (sname, kwname, variants, pool, extra) in TWO.items():
+        srt = sorted(pool, key=lambda p: (p[0], p[1]))
+        lists = [srt, [pool[3], pool[1], pool[8]], [pool[5], pool[5], pool[2]]] + [[p] for p in pool]
+        doms = DOM_XY if name == 'xy_seq' else [rd + td for rd in DOM_R for td in DOM_T][1:]
+        for dom in doms:
+            for nms in lists:
+                for v in variants:
+                    sh = [[3, 4]] if (name == 'xy_seq' and v is True) else flat
+                    dom2.append({'f': name, 'var': v, 'nms': nms, 'dom': [float(d) for d in dom],
+                                 'cfg': [[s_, s_, dt, dt] for s_ in sh for dt in ('float64', 'float32')]})
+    # (2) sparse requests with high orders
+    pool1 = SPARSE_NS if quick else sorted(SPARSE_NS + SPARSE_NS_T)
+    subs1 = sparse_subsets(pool1, (2, 3)) + ([] if quick else sparse_subsets(SPARSE_NS, (4,)))
+    sp1 = [{'f': n, 'par': par, 'ns': ns, 'shapes': flat, 'dtypes': ['float64']} for ns in subs1 for n in ONE for par in ONE[n][2]]
+    sp2 = []
+    pools2 = {}
+    for name, (sname, kwname, variants, pool, extra) in TWO.items():
+        pl = SPARSE_TWO[name][0] if quick else SPARSE_TWO[name][0] + SPARSE_TWO[name][1]
+        pools2[name] = pl
+        for nms in sparse_lists(pl, (2, 3)):
+            for v in variants:
+                sh = [[3, 4]] if (name == 'xy_seq' and v is True) else flat
+                sp2.append({'f': name, 'var': v, 'nms': nms, 'cfg': [[s_, s_, 'float64', 'float64'] for s_ in sh]})
+    return [
+        ScopeUnit('coord_domain', dom1, run_one,
+                  f'coordinate-range alphabet, one-index families (the statement quantifies over every coordinate array, not over the nominal interval): every *_seq x every '
+                  f'parameter value x order lists {DOM_NS} x coordinate ranges by nominal interval {DOM_ONE} -- wider than the interval, wholly outside it on either side, and for '
+                  'Qbfs / Qcon a SIGNED radial coordinate (a cut along a diameter, as the library\'s own tests use) and radii beyond 1 -- on the 1-D point set (holds both ends '
+                  'and the middle of the range) and a (3,4) array, float64 and float32; oracle and tolerance as everywhere (scaled by the scalar results on the same points); '
+                  'signature cell x=signed|neg|pos (sign class when it differs from the nominal one) | beyond | inside', reset=reset_poly_caches, chunk=CHUNK),
+        ScopeUnit('coord_domain2', dom2, run_two,
+                  f'coordinate-range alphabet, two-coordinate families: polar families x EVERY pair (r range, theta range) from {DOM_R} x [0,2pi], [-pi,pi], [-4pi,4pi] but the nominal '
+                  f'one (signed r, r > 1, r <= 0, negative and multi-turn angles); xy_seq x (x range, y range) {DOM_XY} (one-signed, mixed-signed, large and tiny magnitudes); x lists '
+                  '{the sorted pool, two 3-lists, each pool pair alone} x every keyword variant, on (5,) and (3,4) coordinates, float64 and float32; signature cells r= / t= / x= / y= signed|neg|pos|beyond|inside for the ranges that differ from the nominal one',
+                  reset=reset_poly_caches, chunk=CHUNK),
+        ScopeUnit('sparse_orders', sp1, run_one,
+                  f'sparse requests with high orders, one-index families: every *_seq x every parameter value x EVERY ascending subset of size 2..3 of the pool {pool1}' + ('' if quick else f' and of size 4 of {SPARSE_NS}') + ' '
+                  f'({len(subs1)} subsets: low orders, the neighbours of 8 and 16, high orders -- gapped requests whose largest order is far above their length), '
+                  'on the 1-D point set and a (3,4) array, float64', reset=reset_poly_caches, chunk=CHUNK),
+        ScopeUnit('sparse_pairs', sp2, run_two,
+                  'sparse requests with high orders, two-index families: EVERY subset of size 2..3, in EVERY order (unsorted, descending), of the pools '
+                  f'{ {n: pools2[n] for n in pools2 if n != "zernike_nm_der_seq"} } (zernike_nm_der_seq: the Zernike pool; per |m| a few radial orders of which some are >= 8, so that the '
+                  'per-|m| tables are sparse) x every keyword variant, on (5,) and (3,4) float64 coordinates', reset=reset_poly_caches, chunk=CHUNK),
     ]
